@@ -64,7 +64,7 @@ func init() {
 		c.Run.Assumef("what the operating system does inside a failing os.WriteFile (a truncated file) and a writer that fails after b bytes are outside static reach")
 		cliAllOrNothing(c)
 		// an unloadable package is a failure, whatever its errors say
-		gen.CheckLoadErrorsFatal(c.Run, c.Prog)
+		loadErrorsTable(c)
 		c.Run.Floor("G-CLI/errors", 4)
 		c.Run.Floor("G-MOCK/write-once", 1)
 		c.RunSkeletons(SkelOpts{Rules: []string{"G-MOCK", "G-FORMAT"}, Env: smallEnv, Formatters: tmpl.Formatters, NoExpand: true})
